@@ -25,7 +25,8 @@ from exabgp.configuration.core import Scope
 from exabgp.configuration.core import Error
 from exabgp.configuration.schema import RouteBuilder, Leaf, ValueType, ActionTarget, ActionOperation, ActionKey
 
-from exabgp.configuration.static.parser import prefix
+from exabgp.configuration.static.parser import path_information, prefix
+from exabgp.configuration.validator import LegacyParserValidator
 
 
 class AnnouncePath(AnnounceIP):
@@ -46,6 +47,7 @@ class AnnouncePath(AnnounceIP):
                 target=ActionTarget.NLRI,
                 operation=ActionOperation.SET,
                 key=ActionKey.FIELD,
+                validator=LegacyParserValidator(parser_func=path_information, name='path-information'),
             ),
         },
     )
